@@ -380,6 +380,8 @@ pub fn good_string(a: &[u32]) -> bool {
 pub fn smt_char_as_string(x: u32) -> String {
     if x == '"' as u32 {
         "\"\"".to_string()
+    } else if x == '\\' as u32 {
+        "\\u{5c}".to_string()
     } else if x >= 32 && x < 127 {
         char::from_u32(x).unwrap().to_string()
     } else if x < 32 || x == 127 {
@@ -400,6 +402,8 @@ impl fmt::Display for SmtString {
         for &x in self.s.iter() {
             if x == '"' as u32 {
                 write!(f, "\"\"")?;
+            } else if x == '\\' as u32 {
+                write!(f, "\\u{{5c}}")?;
             } else if x >= 32 && x < 127 {
                 write!(f, "{}", char::from_u32(x).unwrap())?;
             } else if x < 32 || x == 127 {
@@ -417,8 +421,8 @@ impl fmt::Display for SmtString {
 ///
 /// Convert integer x (interpreted as a Unicode codepoint) to a string in the SMT syntax:
 ///
-/// 1) printable ASCII characters (other than double quote) are unchanged
-/// 2) a double quote is converted to two double quotes
+/// 1) printable ASCII characters (other than double quote and backslash) are unchanged
+/// 2) a double quote is converted to two double quotes; a backslash is converted to "\u{5c}"
 /// 3) non-printable ASCII characters are converted to "\u{xx}" (two hexadecimal digits)
 /// 4) other characters are printed as "\uxxxx" or "\u{xxxxx}"
 /// 5) if x is outside the valid SMT range (i.e., x > 0x2FFFF) then it's
@@ -428,6 +432,8 @@ impl fmt::Display for SmtString {
 pub fn char_to_smt(x: u32) -> String {
     if x == '"' as u32 {
         "\"\"".to_string()
+    } else if x == '\\' as u32 {
+        "\\u{5c}".to_string()
     } else if x >= 32 && x < 127 {
         char::from_u32(x).unwrap().to_string()
     } else if x < 32 || x == 127 {
